@@ -52,12 +52,21 @@ func (n *BlockNode) render(w *trimWriter, ctx nodeContext) Error {
 	if renderer == nil {
 		panic(fmt.Errorf("unset renderer for %v", n))
 	}
-	err := renderer(w, rendererContext{ctx, nil, n})
-	return wrapRenderError(err, n)
+	// a tag is not literal text: a pending right trim ends here, and a later left trim does not
+	// reach across the tag into text before it
+	if err := w.BeginExact(); err != nil {
+		return wrapRenderError(err, n)
+	}
+	if err := renderer(w, rendererContext{ctx, nil, n}); err != nil {
+		return wrapRenderError(err, n)
+	}
+	return wrapRenderError(w.EndExact(), n)
 }
 
 func (n *RawNode) render(w *trimWriter, ctx nodeContext) Error {
-	w.BeginExact()
+	if err := w.BeginExact(); err != nil {
+		return wrapRenderError(err, invalidLoc)
+	}
 	for _, s := range n.slices {
 		_, err := io.WriteString(w, s)
 		if err != nil {
@@ -76,7 +85,9 @@ func (n *ObjectNode) render(w *trimWriter, ctx nodeContext) Error {
 	if value == nil && ctx.config.StrictVariables {
 		return wrapRenderError(errors.New("undefined variable"), n)
 	}
-	w.BeginExact()
+	if err := w.BeginExact(); err != nil {
+		return wrapRenderError(err, n)
+	}
 	if err := wrapRenderError(writeObject(w, value), n); err != nil {
 		return err
 	}
@@ -93,8 +104,13 @@ func (n *SeqNode) render(w *trimWriter, ctx nodeContext) Error {
 }
 
 func (n *TagNode) render(w *trimWriter, ctx nodeContext) Error {
-	err := wrapRenderError(n.renderer(w, rendererContext{ctx, n, nil}), n)
-	return err
+	if err := w.BeginExact(); err != nil {
+		return wrapRenderError(err, n)
+	}
+	if err := n.renderer(w, rendererContext{ctx, n, nil}); err != nil {
+		return wrapRenderError(err, n)
+	}
+	return wrapRenderError(w.EndExact(), n)
 }
 
 func (n *TextNode) render(w *trimWriter, _ nodeContext) Error {
